@@ -962,11 +962,36 @@ def np_less(it, a, b):
     return it.compare(ast.Lt(), a, b)
 
 
+def np_round(it, x, decimals=0):
+    if not is_z3(x):
+        return round(x, decimals)
+    if decimals != 0:
+        raise Unsupported("np.round with decimals")
+    r = core.fresh("round", z3.IntSort())
+    it.facts.append(z3.And(to_real(x) - z3.ToReal(r) <= z3.RealVal("1/2"), z3.ToReal(r) - to_real(x) <= z3.RealVal("1/2")))
+    it.assumptions_log.add("np.round(x): an integer within 1/2 of x (either neighbour on ties)")
+    return z3.ToReal(r)
+
+
+def np_linspace(it, a, b, num=50):
+    it.assumptions_log.add("np.linspace(a, b, m)[k] == a + k*(b-a)/(m-1) (its own rounding is not modelled)")
+    m = to_z3num(num)
+    if it.definedness:
+        it.oblige("defined", "linspace-count-positive", m >= 2)
+    save = it.mode
+    it.mode = "REAL"
+    try:
+        step = to_real(it.binop(ast.Sub(), b, a)) / to_real(m - 1)
+    finally:
+        it.mode = save
+    return LArr(m, lambda k, a=a, step=step: to_real(a) + to_real(to_z3num(k)) * step)
+
+
 NP = {
     "zeros": np_zeros, "ones": np_ones, "empty": np_empty, "full": np_full, "zeros_like": np_zeros_like, "ones_like": np_ones_like, "array": np_array,
     "sum": np_sum, "divide": np_divide, "minimum": np_minimum, "maximum": np_maximum, "clip": np_clip, "all": np_all, "any": np_any, "cumsum": np_cumsum,
     "prod": np_prod, "product": np_prod, "isfinite": np_isfinite, "isscalar": np_isscalar, "exp": np_exp, "argsort": np_argsort, "isclose": np_isclose,
-    "less": np_less, "abs": lambda it, x: b_abs(it, x), "ceil": lambda it, x: to_real(b_ceil(it, x)) if is_z3(x) else float(math.ceil(x)),
+    "less": np_less, "round": np_round, "linspace": np_linspace, "abs": lambda it, x: b_abs(it, x), "ceil": lambda it, x: to_real(b_ceil(it, x)) if is_z3(x) else float(math.ceil(x)),
 }
 
 
@@ -1133,4 +1158,12 @@ def spec_coef(it, node, env):
     return z3.simplify(z3.substitute(e, (x, one)) - z3.substitute(e, (x, zero)))
 
 
-SPEC_FORMS = {"old": spec_old, "implies": spec_implies, "coef": spec_coef}
+def spec_nearest(it, node, env):
+    """nearest(x): an integer r with |x - r| <= 1/2 (a fresh integer constrained by that fact; exact arithmetic)"""
+    x = to_real(it.eval(node.args[0], env))
+    r = core.fresh("nearest", z3.IntSort())
+    it.pc.append(z3.And(x - z3.ToReal(r) <= z3.RealVal("1/2"), z3.ToReal(r) - x <= z3.RealVal("1/2")))
+    return r
+
+
+SPEC_FORMS = {"old": spec_old, "implies": spec_implies, "coef": spec_coef, "nearest": spec_nearest}
